@@ -21,6 +21,11 @@ pub struct ResizeEv {
     pub n: usize,
     pub before: Option<ManagedSnapshot>,
     pub after: Option<ManagedSnapshot>,
+    /// the call started on a fully populated pool with everything idle and nothing but
+    /// resizes in flight
+    pub clean: bool,
+    /// the target the call was made with (`n` is the target that won when resizes overlapped)
+    pub n_called: usize,
 }
 
 pub struct Model {
@@ -37,6 +42,10 @@ pub struct Model {
     /// steps since the last fully quiescent point
     pub steps_in_stretch: u32,
     pub overlapped: bool,
+    /// something other than resize calls ran since the last fully quiescent point
+    pub non_resize_in_stretch: bool,
+    /// the pool at the last fully quiescent point
+    pub last_quiet: Option<ManagedSnapshot>,
     pub shrinks: u32,
     pub grows: u32,
     pub shrink_with_out: bool,
@@ -55,12 +64,26 @@ impl Model {
             raced_release: 0,
             steps_in_stretch: 0,
             overlapped: false,
+            non_resize_in_stretch: false,
+            last_quiet: None,
             shrinks: 0,
             grows: 0,
             shrink_with_out: false,
             grow_with_waiters: false,
             shrink_then_grow: false,
         }
+    }
+}
+
+fn permute(v: &mut Vec<usize>, k: usize, f: &mut dyn FnMut(&[usize])) {
+    if k == v.len() {
+        f(v);
+        return;
+    }
+    for i in k..v.len() {
+        v.swap(k, i);
+        permute(v, k + 1, f);
+        v.swap(k, i);
     }
 }
 
@@ -143,10 +166,10 @@ impl<'a> Interp<'a> {
         );
     }
 
-    pub(crate) fn c07_resized(&mut self, n: usize, b: Option<ManagedSnapshot>, a: Option<ManagedSnapshot>) {
+    pub(crate) fn c07_resized(&mut self, n: usize, n_called: usize, b: Option<ManagedSnapshot>, a: Option<ManagedSnapshot>, clean: bool) {
         let old = b.map(|b| b.max_size);
         let before = if self.c07.prev_quiescent && self.parked.is_empty() { b } else { None };
-        self.c07.resizes.push(ResizeEv { n, before, after: a });
+        self.c07.resizes.push(ResizeEv { n, n_called, before, after: a, clean });
         let prev_limit = old.unwrap_or(self.c07.configured);
         if n < prev_limit {
             self.c07.shrinks += 1;
@@ -180,6 +203,10 @@ impl<'a> Interp<'a> {
         self.c07.prev_quiescent = false;
         self.c07.steps_in_stretch += 1;
         self.c07.overlapped = true;
+        if self.gets.iter().any(|g| g.state == crate::interp::GState::Pending && g.flag.is_set()) || self.parked.iter().any(|p| !matches!(p.kind, PKind::Resize(_))) {
+            // a woken caller or a parked operation other than a resize shares the stretch
+            self.c07.non_resize_in_stretch = true;
+        }
     }
 
     pub(crate) fn c07_quiescent(&mut self, at: &str, sn: &ManagedSnapshot, waiting: usize, _gated: usize) {
@@ -248,7 +275,48 @@ impl<'a> Interp<'a> {
                 );
             }
         } else if dd > 0 {
-            if !resizes.is_empty() {
+            let only_resizes = !self.c07.non_resize_in_stretch && fail == 0 && raced == 0 && !resizes.is_empty() && resizes.len() <= 4;
+            let serial_ok = match (only_resizes, self.c07.last_quiet) {
+                (true, Some(start)) => {
+                    // Nothing but resize calls overlapped each other. Whatever their interleaving, the
+                    // outcome has to be that of *some* serial order of these calls - computed with the
+                    // known arithmetic, so the recorded findings stay recognisable.
+                    let ns: Vec<usize> = resizes.iter().map(|r| r.n_called).collect();
+                    let mut found = false;
+                    let mut order: Vec<usize> = (0..ns.len()).collect();
+                    permute(&mut order, 0, &mut |ord: &[usize]| {
+                        let mut st = start;
+                        for &k in ord {
+                            let (p, s, i) = known_arith(&st, ns[k]);
+                            st.permits = p;
+                            st.size = s;
+                            st.idle = i;
+                            st.max_size = ns[k];
+                        }
+                        if st.permits == sn.permits && st.size == sn.size && st.idle == sn.idle && st.max_size == sn.max_size {
+                            found = true;
+                        }
+                    });
+                    Some(found)
+                }
+                _ => None,
+            };
+            if serial_ok == Some(false) {
+                self.flag(
+                    "resize-capacity",
+                    &["C07"],
+                    format!(
+                        "{}: overlapping resize calls {:?} starting from {:?} left {:?}, which no serial order of these calls produces (limit {} with {} in use allows {} free permits)",
+                        at,
+                        resizes.iter().map(|r| r.n_called).collect::<Vec<_>>(),
+                        self.c07.last_quiet,
+                        sn,
+                        n,
+                        in_use,
+                        fstar
+                    ),
+                );
+            } else if !resizes.is_empty() {
                 // a resize overlapped other operations: magnitude not judged
                 let id = if resizes.iter().any(|r| r.n < self.c07.configured) { "KF1" } else { "KF2" };
                 let id = if raced > 0 { "KF3" } else { id };
@@ -276,6 +344,8 @@ impl<'a> Interp<'a> {
         self.c07.d_prev = d;
         self.c07.prev_quiescent = true;
         self.c07.overlapped = false;
+        self.c07.non_resize_in_stretch = false;
+        self.c07.last_quiet = Some(*sn);
         self.c07.steps_in_stretch = 0;
     }
 
